@@ -259,8 +259,8 @@ def transformers(repo):
 
 def run(ctx):
     repo = ctx.repo
-    shared.qudit_blind_dispatch_rule(ctx, 'C06.m', ['cirq-core/cirq/transformers/', 'cirq-google/cirq_google/transformers/'], floor=4)
-    ctx.decided.append('C06.m transformers that recognise X/Z power gates by class look at their dimension before using Pauli facts')
+    shared.qudit_blind_dispatch_rule(ctx, 'C06.p', ['cirq-core/cirq/transformers/', 'cirq-google/cirq_google/transformers/'], floor=4)
+    ctx.decided.append('C06.p transformers that recognise X/Z power gates by class look at their dimension before using Pauli facts')
     ctx.decided += [
         'C06.a no function of the transformer packages mutates a circuit it received as an argument (alias analysis with callee summaries)',
         'C06.b/c every @transformer consults or forwards context.tags_to_ignore and context.deep (or is tabled with a reason)',
